@@ -12,6 +12,7 @@ PLANS = {
     "C10": {"profiles": ["c10_compaction"], "quick": 3000, "thorough": 60000},
     "C11": {"profiles": ["c11_lifecycle"], "quick": 8000, "thorough": 200000},
     "C19": {"profiles": ["c19_matrix"], "quick": 1600, "thorough": 3200, "enumerate": True},
+    "C20": {"profiles": ["c20_change_cache", "c20_snapshot_cache"], "quick": 6000, "thorough": 120000},
     "C14": {"profiles": ["c14_undo_exact", "c14_undo_approx"], "quick": 5000, "thorough": 100000},
     "C12": {"profiles": ["c12_presence", "c12_presenceless"], "quick": 2500, "thorough": 100000},
     "C08": {"profiles": ["c08_atomic_update"], "quick": 5000, "thorough": 100000},
@@ -127,6 +128,7 @@ META = {
     "C11": {"level": "Raw protocol clients (generated Connect client, hand-built packs from real Documents) issue Activate/Attach/PushPull/Detach/Remove/Deactivate in any state for 2 clients x 2 documents; a reference state machine written from docs/design/document-client-lifecycle.md predicts accept/reject; rejected calls must not grow any log; after detach/deactivate no stored version vector may lower the minimum; removed documents answer with the removed flag and store nothing.", "note": _common + "; calls on a document key after one of its documents was removed are only checked for 'stores nothing' (the document does not specify them)"},
     "C12": {"level": "Presence-heavy sessions with snapshot pulls, re-attach, rejoin, vanish, housekeeping deactivation, on presence-enabled and presenceless documents, with late attachers that disagree with the document's setting: AllPresences() equal on all replicas and keyed by exactly the clients the server counts as attached; presenceless: no presence in any stored row, response or snapshot.", "note": _common},
     "C19": {"profiles": ["c19_matrix"], "quick": 1600, "thorough": 3200, "enumerate": True},
+    "C20": {"profiles": ["c20_change_cache", "c20_snapshot_cache"], "quick": 6000, "thorough": 120000},
     "C14": {"level": "Local sessions of one client (the property's quantifier: no remote changes) with single-edit Updates from the content alphabet plus approximate kinds, random well-nested Undo/Redo: a content stack predicts the canonical content (text as attribute runs, trees as XML) after every Undo/Redo of an exact kind; Undo/Redo never fail; clone == root; the final synchronisation succeeds.", "note": _common + "; five undo defects of the pinned tree are listed as known; undo after synchronisation/GC is outside this check (see C15)"},
     "C18": {"level": "At sync points and at quiescence every replica's document goes through FromCRDT -> Marshal -> Unmarshal -> SetYSON into a fresh Document -> FromCRDT; generated YSON literals of every element type enter through SetYSONElement/WithInitialRoot; a revision created mid-run is restored at the end and must give every replica the recorded content; after all clients detached the real compaction must succeed and keep the content.", "note": _common},
 }
